@@ -454,8 +454,19 @@ func (d *Data) sendBlocksSpecific(ctx *datastore.VersionedCtx, w http.ResponseWr
 		return
 	}
 
-	// launch goroutine that will stream blocks to client
+	// parse every block coordinate before anything is launched: a malformed list is refused
+	// without leaving the streaming goroutine behind
 	numBlocks = len(coordarray) / 3
+	bcoords := make([]dvid.ChunkPoint3d, 0, numBlocks)
+	for i := 0; i < len(coordarray); i += 3 {
+		var bcoord dvid.ChunkPoint3d
+		if bcoord, err = strArrayToBCoord(coordarray[i : i+3]); err != nil {
+			return 0, err
+		}
+		bcoords = append(bcoords, bcoord)
+	}
+
+	// launch goroutine that will stream blocks to client
 	wg := new(sync.WaitGroup)
 
 	ch := make(chan blockSend, numBlocks)
@@ -480,11 +491,7 @@ func (d *Data) sendBlocksSpecific(ctx *datastore.VersionedCtx, w http.ResponseWr
 	}()
 
 	// iterate through each block, get data from store, and transcode based on request parameters
-	for i := 0; i < len(coordarray); i += 3 {
-		var bcoord dvid.ChunkPoint3d
-		if bcoord, err = strArrayToBCoord(coordarray[i : i+3]); err != nil {
-			return
-		}
+	for i, bcoord := range bcoords {
 		if i == 0 {
 			startBlock = bcoord
 		}
@@ -498,8 +505,9 @@ func (d *Data) sendBlocksSpecific(ctx *datastore.VersionedCtx, w http.ResponseWr
 		timing.readDone(t0)
 
 		if err != nil {
+			// (the streaming goroutine records the error; it is released below)
 			ch <- blockSend{err: err}
-			return
+			break
 		}
 
 		if len(value) > 0 {
